@@ -186,8 +186,7 @@ Proof.
   destruct (grant_only_when_free c Hchk Hgrd Hcfg _ t x (HI _) Hok Hf) as [Hfree _].
   rewrite <- HC in Hfree.
   unfold step. cbn [l_tid l_fault l_bit]. unfold thread_at in Ht. rewrite Ht.
-  destruct th as [cf p ? ? ? ? ? ? ? ? ?]; cbn [tpc cfg] in *; subst p.
-  unfold tstep, norm_pc, mark; cbn. unfold exec; cbn. rewrite Hfree. eexists. split; reflexivity.
+  unfold tstep, norm_pc, mark; cbn [tpc]. rewrite Hp. cbn [exec cfg]. rewrite Hfree. eexists. split; reflexivity.
 Qed.
 
 (** ... and a thread at its deferred release holds the lock file, so that both halves of
@@ -203,8 +202,7 @@ Proof.
   assert (Hh : holder (F (c_lk (cfg th))) = Some t) by (rewrite <- HC; exact Hown).
   destruct (holder_owns_file c _ t (HI _) Hh) as (i & Hi & _).
   unfold step. cbn [l_tid l_fault l_bit]. unfold thread_at in Ht. rewrite Ht.
-  destruct th as [cf p ? ? ? ? ? ? ? ? ?]; cbn [tpc cfg] in *; subst p.
-  unfold tstep, norm_pc, mark; cbn. unfold exec; cbn. rewrite Hown, Nat.eqb_refl.
+  unfold tstep, norm_pc, mark; cbn [tpc]. rewrite Hp. cbn [exec cfg fault_eqb orb]. rewrite Hown, Nat.eqb_refl.
   eexists. eexists. split; [reflexivity|]. cbn [FL.step]. rewrite Hi. reflexivity.
 Qed.
 
